@@ -449,7 +449,7 @@ func init() {
 	core.Register(&core.Check{
 		ID:          "C08",
 		Level:       "exploration",
-		Rule:        "byte strings enumerated exhaustively: all strings of <=L tokens over the full token alphabet (one spelling per lexable token kind plus unterminated string/comment, newline, ILLEGAL, NUL, 0xFF), joined by a space and by nothing; <=L+1 tokens over a class-reduced alphabet; all byte strings <=2 (3) over all 256 values; <=4 (5) over the significant byte set; every truncation and single-byte mutation of the shipped examples; each in file and line mode. Oracle under recover: no panic; errors, continuation or a tree; a tree without error/continuation has no missing child (own canonical dump) and prints in normal, compact and all-parens modes without panicking. Non-trivial = non-empty input; distinct by input bytes.",
+		Rule:        "byte strings enumerated exhaustively: all strings of <=L tokens over the full token alphabet (one spelling per lexable token kind plus unterminated string/comment, newline, ILLEGAL, NUL, 0xFF), joined by a space and by nothing; <=L+1 tokens over a class-reduced alphabet; all byte strings <=2 (3) over all 256 values; <=4 (5) over the significant byte set; every truncation and single-byte mutation of the shipped examples; each in file and line mode. Oracle under recover: no panic; errors, continuation or a tree; a tree without error/continuation has no missing child (own canonical dump) and prints in normal, compact and all-parens modes without panicking. Non-trivial = non-empty input; distinct by input bytes. A pass at debug log level (trace formatting on the error paths) over the template mutations and 2-token strings.",
 		Assume:      []string{"a hang is detected by a watchdog (30 s without progress)"},
 		QuickCap:    100 * time.Second,
 		ThoroughCap: 20 * time.Minute,
